@@ -15,6 +15,9 @@ real run : (mode "async") the real AsyncTCPNetworkServer / AsyncUDPNetworkServer
            loop's sock_accept raises them) with stop / shutdown / server_close / cancel landing in the back-off and a second
            serve_forever on the same server; gated histories that keep the loop thread in the tail of the tear-down (after the
            portal exit) while other threads call shutdown / serve_forever / server_close.
+           Round 6: `"port": "fixed"` (a reserved loopback port instead of port 0, vlib/c18_ports.py), op `bye` (a client whose
+           connection the SERVER closes first: TIME_WAIT on the server's port), async op `renew` (the closed server object is
+           replaced by a new one on the same address): restarts that have to bind the same port again at once.
 model run: the observed linearisation (which call started / returned when, with what outcome, the is_serving /
            is_listening flags seen from outside, quiescence points) is given to the Lean transition systems
            EasyNet.Life.A / EasyNet.Life.S (endriver, `life-async` / `life-sa`), which search for a model execution
@@ -61,7 +64,8 @@ TRUSTED_BASE = [
 ]
 ASSUMPTIONS = [
     "request handlers do not leak exceptions into the server task group (C17) and terminate when cancelled",
-    "listener creation succeeds (bind errors are outside the histories)",
+    "listener creation succeeds as far as the environment is concerned (no foreign process on the address; fixed-port histories "
+    "reserve their port, vlib/c18_ports.py): a bind refused because of what the server's own previous run left behind is inside",
     "standalone servers: OS-thread interleavings are sampled; the theorems are about the lock / event protocol",
 ]
 RULE = (
@@ -74,7 +78,10 @@ RULE = (
     "run_sync / run_sync_soon / run_coroutine / run_coroutine_soon x the same windows x exit normal / with an exception; "
     "the loop thread kept in the tail of the tear-down (portal exited, loop / embedded server still closing) while 1-3 threads "
     "call shutdown / serve_forever / server_close there; TCP: the listener's accept() failing with each capacity errno "
-    "(scripted in the harness event loop) with the stop landing in the 100 ms back-off, then serve again} "
+    "(scripted in the harness event loop) with the stop landing in the 100 ms back-off, then serve again; a FIXED port x clients "
+    "whose connection the server closed first / the client closed first / still connected at the stop x shutdown then serve_forever "
+    "again at once on the same object (standalone: new listeners on the same port) or server_close then a new server object on the "
+    "same address (async)} "
     "x schedule (which caller moves at which loop turn, "
     "sleep(0) hops; for threads: barriers and PRNG jitters) x TCP/UDP x suspension points inside service_init and the "
     "listener factory; non-trivial = class of (outcomes seen, calls landing inside start-up / tear-down, restarts, clients); "
@@ -121,6 +128,9 @@ def model_input(case: dict, real: list[str]):
         # one more model caller per NetworkServerThread (its serve_forever runs in a thread of its own)
         n_nst = sum(1 for p in case["progs"] for op in p if op == "tstart")
         return f"life-sa {len(case['progs']) + 1 + n_nst} {c18_pool.fix_flag()}", ops
+    if any(op == "renew" for p in case["progs"] for op in p):
+        # the server object is replaced by a new one: Life.A is the machine of ONE object; oracle only
+        return None
     if has_activators(case):
         # several tasks inside server_activate() (activation lock contended): Life.A has no activation lock, these
         # histories are judged by the oracle only
@@ -209,10 +219,27 @@ def oracle_threads(case: dict, real: list[str]) -> str | None:
                     return (f"NetworkServerThread.start() never returned although its serve_forever had ended ({sv['out']}) and "
                             f"the server thread was gone (deadlock; seen twice, second time alone): {ln} {stacks}")
             return f"a call never returned (watchdog expired twice, second time alone): {ln} {stacks}"
+    _count_evidence(case, real)
     for c in calls:
         if c["out"] is None:
             return f"call {c['caller']} {c['op']} never returned"
         if c["out"].startswith("exc:"):
+            detail = next((ln.split(" ", 2)[2] for ln in real[c["start"]:] if ln.startswith(f"@serve-exc {c['caller']} ")), "") \
+                if c["op"] == "serve" else ""
+            if detail and "listen_foreign=0" not in detail and "fixed port" in detail:
+                # (never seen: another process listening on the port reserved for this history) not a verdict
+                INFRA.append("infra a foreign process listens on the reserved port: " + detail[:300])
+                return None
+            if detail:
+                earlier = [y for y in calls if y["op"] == "serve" and y["ret"] is not None and y["ret"] < c["start"] and y["out"] == "ok"]
+                closed = any(x["op"] == "close" and x["start"] < c["ret"] for x in calls)
+                byes = sum(1 for ln in real[:c["start"]] if ln.startswith("@bye ") and " ok " in ln)
+                if earlier and not closed:
+                    return (f"serve_forever (thread {c['caller']}) on a stopped, not closed server failed: raised {c['out'][4:]} - "
+                            f"{detail} - after {len(earlier)} earlier run(s) of the same server object that shutdown() had stopped"
+                            + (f"; during them the server itself had closed {byes} client connection(s) first (handler: client.aclose())"
+                               if byes else ""))
+                return f"call {c['caller']} serve raised {c['out'][4:]}: {detail}"
             return f"call {c['caller']} {c['op']} raised {c['out'][4:]}"
     for k, ln in tr["notes"]:
         # get_addresses() of the gated histories: returns (whatever the state of the server), raises nothing
@@ -314,11 +341,11 @@ def oracle_threads(case: dict, real: list[str]) -> str | None:
                             "embedded server not yet closed, is_shutdown not yet set)")
     # clients
     for k, ln in enumerate(real):
-        if not ln.startswith("@echo "):
+        if not ln.startswith(("@echo ", "@bye ")):
             continue
         w = ln.split()
         who, res = int(w[1]), w[2]
-        st = next((kk for kk in range(k, -1, -1) if real[kk] == f"@echo-start {who}"), k)
+        st = next((kk for kk in range(k, -1, -1) if real[kk] == f"{w[0]}-start {who}"), k)
         if res == "ok":
             if not any(y["start"] < k and y["ret"] > st and y["out"] not in ("ServerAlreadyRunning", "ServerClosedError") for y in serves):
                 return "a client was served although no serve_forever was in progress"
@@ -336,14 +363,28 @@ def oracle_threads(case: dict, real: list[str]) -> str | None:
 
 
 INFRA: list[str] = []
+EVIDENCE: dict[str, int] = {}
 
 
-def tie_problems(stats) -> list[str]:
-    """an infrastructure problem (watchdog expiry that did not show up again when the history was retried alone, dead
-    worker) is never a verdict: exit 2 — unless real violations were found as well, which are then reported"""
-    if INFRA and not stats.oracle_violations:
-        raise core.InfraError(INFRA[0][:400])
-    return []
+def _count_evidence(case: dict, real: list[str]) -> None:
+    """counters reported under extra_coverage (no verdict depends on them): fixed-port histories, connections the server closed
+    first, restarts that had to bind a port with TIME_WAIT remnants, SO_REUSEADDR of the listening sockets as seen through the
+    public get_sockets() proxies (the library does not document the option: evidence only)"""
+    if case.get("port") != "fixed":
+        return
+    EVIDENCE["fixed_port_histories"] = EVIDENCE.get("fixed_port_histories", 0) + 1
+    for ln in real:
+        if ln.startswith("@bye ") and " ok " in ln:
+            EVIDENCE["server_closed_connections"] = EVIDENCE.get("server_closed_connections", 0) + 1
+        if ln.startswith(("@bye ", "@reuseaddr ")):
+            for tok in ln.split():
+                if tok.startswith("reuseaddr="):
+                    key = case.get("kind", "tcp") + "_listeners_reuseaddr_" + tok.split("=", 1)[1]
+                    EVIDENCE[key] = EVIDENCE.get(key, 0) + 1
+        elif ln.startswith("@port ") and "time_wait=" in ln:
+            v = ln.split("time_wait=")[1].split()[0]
+            if v.isdigit() and int(v) > 0:
+                EVIDENCE["serve_calls_over_time_wait"] = EVIDENCE.get("serve_calls_over_time_wait", 0) + 1
 
 
 def oracle_portal(case: dict, real: list[str]) -> str | None:
@@ -449,6 +490,29 @@ def oracle(case: dict, real: list[str]) -> str | None:
     for ln in real:
         if ln.startswith(("harness-exc", "stalled")):
             return "run did not complete: " + ln
+        if ln.startswith("infra"):
+            INFRA.append(ln)
+            return None
+    _count_evidence(case, real)
+    if "@renew" in real:
+        # the server object was replaced by a new one on the same address (after it had been closed): every object's life
+        # is judged on its own (the `final closed=` line of an object precedes the `@renew` that ends it)
+        seg: list[str] = []
+        k = 0
+        for ln in real + ["@renew"]:
+            if ln == "@renew":
+                why = _oracle_async(case, seg)
+                if why:
+                    return why if k == 0 else (f"server object #{k + 1} (created on the same address after object #{k} had been "
+                                               f"closed): " + why)
+                seg, k = [], k + 1
+            else:
+                seg.append(ln)
+        return None
+    return _oracle_async(case, real)
+
+
+def _oracle_async(case: dict, real: list[str]) -> str | None:
     tr = parse_trace(real)
     calls = tr["calls"]
     serves = [c for c in calls if c["op"] == "serve"]
@@ -465,7 +529,12 @@ def oracle(case: dict, real: list[str]) -> str | None:
         if c["out"] is None:
             return f"call {c['caller']} {c['op']} never returned"
         if c["out"].startswith("exc:"):
-            return f"call {c['caller']} {c['op']} raised {c['out'][4:]}"
+            detail = next((ln.split(" ", 2)[2] for ln in real[c["start"]:] if ln.startswith(f"@serve-exc {c['caller']} ")), "") \
+                if c["op"] == "serve" else ""
+            if detail and "fixed port" in detail and "listen_foreign=0" not in detail:
+                INFRA.append("infra a foreign process listens on the reserved port: " + detail[:300])
+                return None
+            return f"call {c['caller']} {c['op']} raised {c['out'][4:]}" + (": " + detail if detail else "")
     for x in serves:
         active = [y for y in serves if y is not x and y["start"] < x["start"] and (y["ret"] or INF) > x["start"]
                   and y["out"] != "ServerAlreadyRunning"]
@@ -553,7 +622,7 @@ def oracle(case: dict, real: list[str]) -> str | None:
         w = ln.split()
         if w and w[0] == "flags":
             cur = (int(w[1]), int(w[2]))
-        elif ln.startswith("@echo "):
+        elif ln.startswith(("@echo ", "@bye ")):
             res = w[1]
             if cur == (1, 1) and k < min((c["start"] for c in closes), default=INF) and res != "ok":
                 return f"the server is serving but a new client got no echo ({res})"
@@ -661,6 +730,14 @@ def nontrivial(case: dict, real: list[str]) -> str | None:
                 tags.append("nst-start-" + ("never-up" if sv["out"] == "ok" else "refused"))
         elif h["op"] != "tstart":
             tags.append("nst-join")
+    if case.get("port") == "fixed":
+        # a run that came up on the fixed port after an earlier run had closed a client connection itself
+        bye = next((k for k, ln in enumerate(real) if ln.startswith("@bye ") and " ok" in ln), None)
+        if bye is not None and any(k > bye and (ln.startswith("@up ") or ln == "flags 1 1") for k, ln in enumerate(real)) and \
+                any(c["op"] in ("shutdown", "close") and c["start"] > bye for c in tr["calls"]):
+            tags.append("fixedport-rebind-after-server-close" + ("-renew" if "@renew" in real else ""))
+        else:
+            tags.append("fixedport")
     if "ServerAlreadyRunning" in outs:
         tags.append("already-running")
     if "ServerClosedError" in outs:
@@ -675,7 +752,7 @@ def nontrivial(case: dict, real: list[str]) -> str | None:
         tags.append("client")
     if not tags:
         return None
-    first = [t for t in tags if t.startswith(("gate-", "acc-"))] + [t for t in ("act-queued+close", "act-queued", "nst-start-never-up", "nst-start-refused", "nst-join") if t in tags]
+    first = [t for t in tags if t.startswith(("fixedport", "gate-", "acc-"))] + [t for t in ("act-queued+close", "act-queued", "nst-start-never-up", "nst-start-refused", "nst-join") if t in tags]
     tags = first + [t for t in sorted(set(tags)) if t not in first]
     return case.get("mode", "async")[0] + case.get("kind", "tcp")[0] + "/" + "+".join(tags[:3])
 
@@ -768,7 +845,85 @@ def corpus() -> list[dict]:
     cs.append({**base, "progs": [["serve"], ["conn", "close", "probe", "echo", "disc"]], "sched": [[0, 0]]})
     cs.append({**base, "progs": [["serve"], ["conn", "close", "serve", "shutdown"]], "sched": [[0, 0]]})
     cs.append({**base, "progs": [["serve"], ["conn", "cancel:0", "probe"], ["serve"]], "sched": [[0, 0], [], [], [], [], [], [], [], [1, 0], [1, 0], [], [2, 0]]})
-    return cs + corpus_activation() + corpus_accept()
+    return cs + corpus_activation() + corpus_accept() + corpus_fixed_port_async()
+
+
+def _seq(calls: list[tuple[int, int]], lead: int = 12) -> list[list[int]]:
+    """schedule: caller 0's first call at turn 0, then `lead` plain turns, then for every (caller, gap): release the caller's
+    next call and let `gap` plain turns pass (a release that finds its caller busy is a no-op)"""
+    sched: list[list[int]] = [[0, 0]] + [[]] * lead
+    for i, gap in calls:
+        sched.append([i, 0])
+        sched.extend([[]] * gap)
+    return sched
+
+
+def corpus_fixed_port_async() -> list[dict]:
+    """asynchronous servers on a FIXED port (reserved for the history), with connections the SERVER closes first (`bye`:
+    the handler answers and calls client.aclose(): TIME_WAIT on the server's port): serve -> bye -> shutdown -> serve again
+    on the same object (which keeps its listeners: Life.A admits the trace), and serve -> bye -> shutdown -> server_close ->
+    a NEW server object on the same address (`renew`, oracle only) -> serve: it must come up and answer, at once."""
+    cs: list[dict] = []
+    for kind in ("tcp", "udp"):
+        b = {"mode": "async", "kind": kind, "init_hops": 1, "fac_hops": 1, "port": "fixed"}
+        cs.append({**b, "progs": [["serve", "serve"], ["bye", "shutdown", "echo", "bye", "probe"]], "sched": [[0, 0]]})
+        cs.append({**b, "progs": [["serve", "serve", "serve"], ["echo", "bye", "bye", "shutdown", "bye", "shutdown", "echo"]], "sched": [[0, 0]]})
+        # close, then a new object on the same address; again; with a client still connected when the first one is closed
+        cs.append({**b, "progs": [["serve"], ["bye", "shutdown", "close", "renew", "serve"], ["echo", "bye", "probe"]],
+                   "sched": _seq([(1, 0), (1, 15), (1, 15), (1, 0), (1, 15)])})
+        cs.append({**b, "progs": [["serve"], ["bye", "close", "renew", "serve"], ["bye", "close", "renew", "serve"], ["echo", "probe"]],
+                   "sched": _seq([(1, 0), (1, 15), (1, 0), (1, 15), (2, 0), (2, 15), (2, 0), (2, 15)])})
+        if kind == "tcp":
+            cs.append({**b, "progs": [["serve"], ["conn", "bye", "close", "disc", "renew", "serve"], ["echo", "bye"]],
+                       "sched": _seq([(1, 0), (1, 0), (1, 15), (1, 5), (1, 0), (1, 15)])})
+        # renew without any client before (control) and on a server that is not closed (skipped: control)
+        cs.append({**b, "progs": [["serve"], ["shutdown", "close", "renew", "serve"], ["echo"]],
+                   "sched": _seq([(1, 15), (1, 15), (1, 0), (1, 15)])})
+        cs.append({**b, "progs": [["serve"], ["bye", "renew", "echo", "shutdown", "renew", "echo"]], "sched": _seq([(1, 0), (1, 0), (1, 0), (1, 15), (1, 0), (1, 0)])})
+    return cs
+
+
+def _fixed_async(rng) -> dict:
+    """random fixed-port histories: 1-3 runs, each with echo / bye / persistent clients, ended by shutdown (same object
+    serves again) or shutdown + close / close (a new object on the same address serves)"""
+    kind = rng.choice(["tcp", "tcp", "tcp", "udp"])
+    runs = rng.choice([2, 2, 3])
+    p0, p1 = ["serve"], []
+    calls: list[tuple[int, int]] = []
+    renewed = False
+    for r in range(runs):
+        for _ in range(rng.randint(1, 3)):
+            op = rng.choice(["bye", "bye", "bye", "echo", "conn" if kind == "tcp" else "echo"])
+            p1.append(op)
+            calls.append((1, 0))
+        if r == runs - 1:
+            p1.append("probe")
+            calls.append((1, 2))
+            break
+        how = rng.choice(["shutdown", "shutdown", "shutdown+close", "close"])
+        for op in how.split("+"):
+            p1.append(op)
+            calls.append((1, 15))
+        if "close" in how:
+            if "conn" in p1:
+                p1.append("disc")
+                calls.append((1, 5))
+            p1 += ["renew", "serve"]
+            calls += [(1, 0), (1, 15)]
+            renewed = True
+            # (from now on caller 1 is inside serve_forever: the clients of the later runs belong to caller 2)
+            p2: list[str] = []
+            for r2 in range(r + 1, runs):
+                for _ in range(rng.randint(1, 3)):
+                    p2.append(rng.choice(["bye", "bye", "echo"]))
+                    calls.append((2, 0))
+            p2.append("probe")
+            calls.append((2, 2))
+            return {"mode": "async", "kind": kind, "port": "fixed", "progs": [p0, p1, p2], "sched": _seq(calls),
+                    "init_hops": rng.choice([0, 1, 2]), "fac_hops": rng.choice([0, 1, 2])}
+        p0.append("serve")
+    return {"mode": "async", "kind": kind, "port": "fixed", "progs": [p0, p1], "sched": _seq(calls),
+            "init_hops": rng.choice([0, 1, 2]), "fac_hops": rng.choice([0, 1, 2])}
 
 
 CAPACITY_ERRNOS = ("EMFILE", "ENFILE", "ENOMEM", "ENOBUFS")        # constants.ACCEPT_CAPACITY_ERRNOS: log, sleep 100 ms, retry
@@ -951,9 +1106,14 @@ def generate(rng, tier: str, boost: int):
     grng = core.sub_rng(core.seed_from_env(), ID, tier, "gates", boost)      # (the stream of the older generators is unchanged)
     cg, cp = c18_pool.corpus_gated(), c18_pool.corpus_portal()
     mixed = [c for pair in itertools.zip_longest(cg, cp) for c in pair if c is not None]
-    thr_cases = mixed + [c18_pool.rand_portal(grng) for _ in range(n_por)] + \
+    frng = core.sub_rng(core.seed_from_env(), ID, tier, "fixedport", boost)  # (own stream: fixed-port histories)
+    n_fix = (30 if tier == "quick" else 300) * boost
+    n_fix_thr = (20 if tier == "quick" else 300) * boost
+    thr_cases = mixed + [c18_pool.rand_fixed_port(frng) for _ in range(n_fix_thr)] + [c18_pool.rand_portal(grng) for _ in range(n_por)] + \
         [c18_pool.rand_gated(grng) for _ in range(n_gat)] + c18_pool.corpus_threads() + [c18_pool.rand_case(rng) for _ in range(n_thr)]
     c18_pool.prefetch(thr_cases)
+    for _ in range(n_fix):
+        yield _fixed_async(frng)
     for _ in range(n_async):
         yield _dense_async(rng) if rng.random() < 0.5 else _rand_async(rng)
     for _ in range(n_act):
@@ -976,4 +1136,5 @@ def generate(rng, tier: str, boost: int):
 def extra_coverage(stats) -> dict:
     from vlib import c18_pool
     return {"model_scope": "EasyNet.Life.A (async) / EasyNet.Life.S (standalone, fix flag from a behavioural probe)",
+            "fixed_port_evidence": dict(sorted(EVIDENCE.items())),
             "standalone_fix_flag": c18_pool.fix_flag(), "threads_infra_retries": c18_pool.STATS.get("retries", 0) + c18_pool.STATS.get("g_retries", 0)}
